@@ -1,6 +1,9 @@
 import Clikit.Drv.Util
 import Clikit.Model.Run
-/-! Driver entry of the run model: `c04.run`. -/
+import Clikit.Model.RunListeners
+/-! Driver entries of the run model: `c04.run` (listeners given in calling order) and `c04.run_regs`
+(listeners given as a registration history with priorities and event names; ordered through the
+dispatcher model, `RunListeners.runWithDispatcher`). -/
 namespace Clikit.Drv.C04
 open Lean Clikit.Drv Clikit.Run
 
@@ -27,6 +30,11 @@ def outcomeOf (j : Json) : R Outcome :=
   | some r => do return .ret (← retOf r)
   | none => do return .raise (← excOf (← field j "raise"))
 
+/-- one `add_event_listener(event, listener, priority)`; event names arrive as numbers
+(`RunListeners.preHandle` = 1 is PRE_HANDLE) -/
+def regOf (j : Json) : R RunListeners.Registration := do
+  return { ev := ← fNat j "event", prio := ← fInt j "prio", l := ← listenerOf (← field j "listener") }
+
 def jExc (e : Exc) : Json :=
   Json.mkObj [("ki", .bool e.keyboardInterrupt), ("clikit", .bool e.clikit), ("tag", jNat e.tag)]
 
@@ -43,6 +51,19 @@ def handle (m : String) (j : Json) : Option (R Json) :=
       let r := run debug resolved ls h (fun _ => renderOk)
       return Json.mkObj [("status", jOpt jNat r.status), ("escaped", jOpt jExc r.escaped),
                          ("reported", .bool r.reported), ("calls", jNat r.handlerCalls)]
+  | "c04.run_regs" => some do
+      let debug ← fBool j "debug"
+      let resolved : Except Exc Unit ← match fOpt j "resolve_error" with
+        | none => pure (.ok ())
+        | some e => do pure (.error (← excOf e))
+      let regs ← (← fArr j "regs").toList.mapM regOf
+      let h ← outcomeOf (← field j "handler")
+      let renderOk ← fBool j "render_ok"
+      let r := RunListeners.runWithDispatcher debug resolved regs h (fun _ => renderOk)
+      return Json.mkObj [("status", jOpt jNat r.status), ("escaped", jOpt jExc r.escaped),
+                         ("reported", .bool r.reported), ("calls", jNat r.handlerCalls),
+                         ("listener_calls", .arr ((RunListeners.listenerCalls resolved regs).map jNat).toArray),
+                         ("pre_handle", jNat RunListeners.preHandle)]
   | _ => none
 
 end Clikit.Drv.C04
